@@ -31,6 +31,8 @@ def alphabet(full=True):
     for pos in range(0, 5):
         a.append("emp:0:%d:9" % pos)
     a.append("era:0:18446744073709551615")    # the position just before the first slot
+    for big in (4294967296, 4294967297):       # indices whose low 32 bits are a valid index
+        a += ["at:0:%d" % big, "get:0:%d" % big]
     for pos in range(0, 4):
         a.append("era:0:%d" % pos)
         a.append("at:0:%d" % pos)
@@ -154,6 +156,8 @@ def rand_seq(rng, n, kind, with_fuel, interior_range):
             op = "pop:%d" % i
         elif r < 73:
             op = "%s:%d:%d" % (rng.choice(["at", "get", "idx"]), i, rng.below(s[0] + 2))
+            if not op.startswith("idx") and rng.chance(1, 8):
+                op = "%s:%d:%d" % (op.split(":")[0], i, 4294967296 * (1 + rng.below(3)) + rng.below(s[0] + 1))
         elif r < 76 and kind == "c":
             k = rng.below(s[0] + 1)
             op = rng.choice(["pba:%d:%d" % (i, k), "eba:%d:%d" % (i, k), "ica:%d:%d" % (i, k),
